@@ -137,7 +137,7 @@ pub fn rule(prop: &str) -> String {
         "C17" => "Each seeded run generates one builder-made model (random parameter lists, arities 0-3, shared parameters, invariant functions) and a history of 3-24 bare-model calls: set_params with lengths {P,0,P-1,P+1,2P}, eval, eval_partial_deriv(k) with k in {0..P-1,P,P+7,usize::MAX}; the history is executed fault-free and then once for EVERY (closure, wrong length in {0,N-1,N+1,2N}) pair, the closure returning that length at a seeded call index. The reference model is the last accepted parameter vector. An execution is non-trivial only if a wrong-length output was actually returned or a wrong-length parameter vector was applied; distinct = distinct signatures (width, M, P, function/derivative closure, empty/shorter/longer, outcome sequence).",
         _ => "",
     };
-    format!("{body} Bounds of the generators (nothing beyond them is explored): f64 and f32; basis functions from 9 analytic families of arity 0-5 plus constant/linear terms, up to 10 of them sharing up to 20 nonlinear parameters (mostly <= 3 and <= 3); 0-96 samples (C12: up to M+P+200), also fewer samples than basis functions; 1-10 right-hand sides; weights none / ones / constant / mild / 6-12 decades / with zeros / with negatives; truncation threshold default, 1e-10..3, negative, exactly 0; observations over 40 decades of magnitude; grids ascending, descending, shifted, centred; caller-driven scripts of at most 24 operations; optimizer patience 1-100 with zero/epsilon/huge tolerances, tiny step bound, no scaling; simulated pools of 1-16 threads. 4% of scenarios are 'corner' runs that draw the rare options together.")
+    format!("{body} Bounds of the generators (nothing beyond them is explored): f64 and f32; basis functions from 9 (+1 rare) analytic families of arity 0-5 plus constant/linear terms, up to 10 of them sharing up to 20 nonlinear parameters (mostly <= 3 and <= 3); 0-96 samples (C12: up to M+P+200), also fewer samples than basis functions; 1-10 right-hand sides; weights none / ones / constant / mild / 6-12 decades / with zeros / with negatives; truncation threshold default, 1e-10..3, negative, exactly 0; observations over 40 decades of magnitude; grids ascending, descending, shifted, centred; caller-driven scripts of at most 24 operations; optimizer patience 1-100 with zero/epsilon/huge tolerances, tiny step bound, no scaling; simulated pools of 1-16 threads. 4% of scenarios are 'corner' runs that draw the rare options together. Hash-selected rare classes on top (each leaves all other scenarios unchanged): 1 in 400 'giant' in one dimension (65-80 nonlinear parameters over up to 40 functions; 11-130 right-hand sides incl. 16/17/32/33/64/65/128; 4 097-70 000 samples incl. exact multiples of 4096 and >= 2^16 basis-matrix elements; C12: 4 096-20 000 samples), 1 in 25 with the family tanh((x-x0)/w) (sensitive to the sign of a zero parameter) and update pairs that differ only in the sign of a zero, 1 in 40 with a positive truncation threshold far below machine epsilon (half of them with weights of 1e-25..1e-9 so that all singular values lie in between), 1 in 8 with repeated builder setter calls, 1 in 1000 small scenarios with 1 000-70 000 consecutive updates on one object (C08, C10), C12: 1 in 150 purely linear models without nonlinear parameters. Scalar types other than f32/f64 (complex numbers) are never instantiated.")
 }
 
 pub fn components(_prop: &str) -> serde_json::Value {
